@@ -170,7 +170,3 @@ func sortedContractKeys(m map[string]*Contract) []string {
 	return ks
 }
 
-func cmdProp(args []string) {
-	fmt.Fprintln(os.Stderr, "not implemented yet")
-	os.Exit(2)
-}
